@@ -8,6 +8,7 @@ Riemann-exact on the cells predicted by M from the tables extracted from the imp
 """
 from __future__ import annotations
 
+import itertools
 import random as pyrandom
 from fractions import Fraction
 
@@ -29,30 +30,51 @@ from rpylib.process.markovchain.markovchainlevycopula import MarkovChainLevyCopu
 
 RULE = ("(i) dyadic: probability vectors with 2..64 (thorough ..512) entries that are multiples of 2^-12 (zeros, ties, one dominant entry, "
         "uniform) x {alias, table, bst, huffman}; (ii) factory: zoo.model_stream x six grid constructors x the 6 one-dimensional "
-        "SamplingMethods, and 2-d copula chains x {INVERSION, BINARYSEARCHTREEADAPTED}; (iii) random interleavings with repetition of "
-        "sample_with_u calls, _max_storage lowered; (iv) sample(size) with a prescribed uniform vector. "
+        "SamplingMethods, 2-d copula chains x {INVERSION, BINARYSEARCHTREEADAPTED} and 3-d copula chains x BINARYSEARCHTREEADAPTED "
+        "(one 5^3 grid in quick, up to 9^3 in thorough), the n-d sampler against M's AdaptedNd model fed with the extracted buckets and "
+        "the box masses the implementation computes; (iii) random interleavings with repetition of sample_with_u calls, _max_storage "
+        "lowered; (iv) sample(size) with a prescribed uniform vector; (v) cross-instance histories: two to four sampler objects (same and "
+        "mixed methods) built on IDENTICAL models/grids in one process (two fixed asymmetric HEM uniform grids, random chains; 2-d/3-d "
+        "copula chains), the first inversion sampler draws to a pairing index past the switch 2*min(L,R) but not to the end, then a "
+        "freshly built sampler is swept and judged against q/lambda, then draws are interleaved between all objects (increasing depth "
+        "alternating between two new objects, then random); references are pure (M's z1dProject / zdProject enumeration, no `project` "
+        "call on any pairing object). "
         "non-trivial = at least 3 states of positive probability; distinct = distinct (stream, method, vector / chain description)")
 NOT_PROVED = [
     "alias: Alias.build_law is a theorem about the exact-arithmetic model of `create_alias`; in floats the two clean-up loops may overwrite "
     "entries that differ from 1 by rounding - covered by the extra certificate path (proved Alias.draw_spec + law_of_cells applied to the "
     "(J, q) the implementation built, 2^-40) and the exact comparison of M's `build` with the implementation's (J, q) on the dyadic stream",
-    "binary search tree: the in-order construction (`Bst.build` gives cells of length p_k) is not proved; the proved `Bst.draw_spec` "
-    "(cells of arbitrary threshold tables) is applied to the implementation's array and the lengths are compared with p",
-    "table method: the residual-alias hypothesis of Table.law_partial is now discharged by Alias.build_law, the slot counts of `slotsOf` "
-    "remain hypotheses (compared exactly); law proved for the idealisation (slot uniform on 256 values independent of a continuous residual uniform); the "
-    "2^32-point lattice of the real 32-bit integer is not analysed",
-    "inversion: history independence proved when no pairing index below the frontier maximum is outside the grid (all 1-d chains, "
-    "equal-sided boxes); with skipped indices only compared (and the storage cap then breaks it: known finding)",
-    "n-dimensional adapted binary search: no Lean model; cells predicted by a Python re-enumeration, law measured on the implementation",
+    "binary search tree: Bst.build_law (in-order construction as coded gives cells of total length p_k, all K, all p >= 0 with sum 1) is now "
+    "PROVED for the exact-arithmetic model; float accumulation of the thresholds is compared (cells of the implementation's array, 2^-40)",
+    "table method: Table.build_law is now unconditional for the stated idealisation (slot uniform on 256 values independent of a continuous "
+    "residual uniform): slot counts of `slotsOf`, 256 slots, residual vector theta/sum(theta) and its alias are all proved; the 2^32-point "
+    "lattice of the real 32-bit integer is not analysed (Table.low_byte_shift bounds the shift by 2^-24); float: int(256 p) and theta "
+    "are compared exactly on the dyadic stream",
+    "inversion: history independence + draw spec are proved (a) when no pairing index below the frontier maximum is outside the grid, for "
+    "every storage cap >= 1 (all 1-d chains, equal-sided boxes: Inversion.history_independent) and (b) for ANY pattern of skipped pairing "
+    "indices when the number of admissible states is below the storage cap (Inversion.history_independent_skip / draw_spec_skip: every "
+    "real grid with the default cap 10^6); NOT proved: skipped indices AND cap reached - false in general (negation witness skipEnv, "
+    "known finding C02-inversion-cap-reset-with-skipped-indices), true when all skipped indices lie beyond the cap (only compared)",
+    "n-dimensional adapted binary search: AdaptedNd.draw_spec / cells_cover / cells_disjoint are proved for ARBITRARY tables and box-mass "
+    "function M; AdaptedNd.build_law (the tables `_pre_computation` builds - 3^d - 1 product buckets, cumulated masses, axis vectors - give "
+    "every grid state other than the origin cells of total length M(point s), the origin / outside states nothing) and build_zero_never "
+    "are proved in exact arithmetic under the hypotheses that M is non-negative and additive under midpoint cuts and that the origin is "
+    "strictly inside every axis; additivity of the real joint mass is C01/C04/C19's subject and is only measured here on the extracted "
+    "tables (branch c02.adnd.additive_and_consistent_defect); float slivers at bucket boundaries are a known finding; cross-instance "
+    "independence is only tested (stream v), the model has no shared state by construction",
     "1-d adapted bisection: draw_spec proved for a cell-mass table `w` with P(l,r) = sum of w; additivity of the real mass is C01/C09",
     "floating point: thresholds are compared at cell midpoints and at boundaries +- 2^-30 width; u exactly on a boundary is a don't-care point",
 ]
 ASSUMPTIONS = ["float sums of a probability vector differ from 1 by a few ulps: the sliver [sum p, 1) of length < 2^-40 (sent to the last leaf / last "
                "column / a frontier state by the implementations) is not judged",
                "the uniform source (numpy.random.uniform / random.getrandbits) is uniform",
-               "PairingToZ1d.project is a pure function of its index as long as the sampler is its only caller (increasing first calls)",
-               "functools.lru_cache is a memo of a pure function"]
-TRUSTED = ["bisect.bisect_left, numpy.searchsorted (first index with entry >= u on a sorted list)"]
+               "PairingToZ1d.project is a pure function of its index as long as the sampler is its only caller (increasing first calls); "
+               "stream (v) tests exactly this across sampler objects, against the pure enumeration of M",
+               "functools.lru_cache / functools.cache are memos of pure functions (tested across objects in stream v, not proved)",
+               "n-d adapted sampler: cells narrower than 2^-46 (float slivers between an axis vector's last entry and the bucket mass, where "
+               "the code returns the index one past the bucket) are not judged"]
+TRUSTED = ["bisect.bisect_left, numpy.searchsorted (first index with entry >= u on a sorted list)",
+           "C14's Lean model of PairingToZ1d / PairingToZd enumeration order (used as the pure reference of the inversion sampler)"]
 
 E30 = Fraction(1, 2 ** 30)
 TOL = Fraction(1, 2 ** 40)
@@ -606,7 +628,10 @@ def history_case(ctx, d, cls, mk, cells, o, env=None, nd=False):
     hcls = dict(cls, stream="history")
     steps = ctx.n(60, 400)
     seq = [rng.choice(us) for _ in range(steps)]
-    inst = mk().sampling
+    proc = mk()
+    inst = proc.sampling
+    # public bookkeeping calls that must not change the law: the engines reset the cost counters between runs
+    resets = set(rng.sample(range(1, steps), min(steps - 1, rng.choice([0, 1, 2, 4]))))
     cap = None
     if env is not None:
         adm, prob, incs, mf = env
@@ -623,8 +648,17 @@ def history_case(ctx, d, cls, mk, cells, o, env=None, nd=False):
         if nd and env is None:
             return canon(smp.sample_with_us(np.array([u]))[0])
         return canon(smp.sample_with_u(u))
+    def bookkeeping(i):
+        if i in resets:
+            for obj, name in ((inst, "reset_sampling_cost"), (proc, "reset_one_simulation_cost")):
+                if rng.random() < 0.7 and hasattr(obj, name):
+                    getattr(obj, name)()
+                    ctx.branches[f"c02.history:{name}"] += 1
     try:
-        got = [ask(inst, u) for u in seq]
+        got = []
+        for i, u in enumerate(seq):
+            bookkeeping(i)
+            got.append(ask(inst, u))
         fresh = {}
         for u in sorted(set(seq)):
             fresh[u] = ask(mk().sampling if len(fresh) < 6 else fresh_ref, u)
@@ -823,57 +857,157 @@ def cross_stream(ctx, models):
 
 
 # ------------------------------------------------------------------------------------------------ 2-d copula chains
-def adapted_nd_cells(s):
-    """Python re-enumeration of BinarySearchTreeAdapted.sample_with_us as explicit cells (state increment, lo, hi];
-    no Lean model (NOT_PROVED)"""
-    grid = s.grid
-    oc = tuple(int(c) for c in grid.origin_coordinate)
+def nd_tables(s):
+    """wire form of the tables of a BinarySearchTreeAdapted: buckets (index boxes, `_cum_ps`, `_is_axis`, precomputed axis
+    vectors) and the finite part of the box-mass function `M` the search can consult: every box `result` with one axis cut to
+    its lower half that `sample_one_bucket` can reach (axes are split cyclically, skipping degenerate ones), evaluated with
+    the sampler's own `_compute_probability` on the cell edges the code uses."""
     from rpylib.grid.grid import Coordinates
-    cells = []
-    cum = [fr(float(x)) for x in s._cum_ps]
-    prev = Fraction(0)
-    for b, coords in enumerate(s._buckets_coordinates):
-        lo_b = prev
-        prev = cum[b]
-        if s._is_axis[b]:
-            cps = [fr(float(x)) for x in s._precomputed_cum_p_for_axes[b]]
-            a_c, b_c = list(zip(*coords))
-            last = Fraction(0)
-            for j, c in enumerate(cps):
-                state = tuple(l if l == r else l + j for l, r in zip(a_c, b_c))
-                cells.append((tuple(v - o for v, o in zip(state, oc)), lo_b + last, min(lo_b + c, cum[b]) if j < len(cps) - 1 else cum[b]))
-                last = c
-            continue
+    grid = s.grid
+    keys, vals = [], []
+    seen = set()
+    defect = [0.0, 0.0]       # hypothesis `Additive M` of AdaptedNd.law_of_cells, measured on the boxes the search visits
 
-        def rec(result, lo, kstart):
-            if all(l == r for l, r in result):
-                cells.append((tuple(c[0] - o for c, o in zip(result, oc)), lo, None))
+    def mass_of(box):
+        a_c, b_c = zip(*box)
+        a_cc, b_cc = Coordinates(a_c), Coordinates(b_c)
+        a = grid.middle(grid.left_point(a_cc), grid[a_cc])
+        bb = grid.middle(grid[b_cc], grid.right_point(b_cc))
+        return float(s._compute_probability(a, bb))
+
+    def rec(box, kstart):
+        if all(l == r for l, r in box):
+            return
+        dim = len(box)
+        k = kstart
+        while box[k][0] == box[k][1]:
+            k = (k + 1) % dim
+        left, right = box[k]
+        middle = (right + left) // 2
+        lres = list(box)
+        lres[k] = (left, middle)
+        key = tuple(lres)
+        if key not in seen:
+            seen.add(key)
+            keys.append([v for lr in lres for v in lr])
+            vals.append(mass_of(lres))
+        rres = list(box)
+        rres[k] = (min(right, middle + 1), right)
+        whole, lo_half, hi_half = mass_of(box), mass_of(lres), mass_of(rres)
+        defect[0] = max(defect[0], abs(whole - lo_half - hi_half))
+        rec(lres, (k + 1) % dim)
+        rec(rres, (k + 1) % dim)
+
+    boxes, isax, axc = [], [], []
+    for b, coords in enumerate(s._buckets_coordinates):
+        box = [(int(l), int(r)) for l, r in coords]
+        boxes.append([v for lr in box for v in lr])
+        ax = bool(s._is_axis[b])
+        isax.append(1 if ax else 0)
+        axc.append([float(x) for x in s._precomputed_cum_p_for_axes[b]] if ax else [])
+        # hypothesis `Consistent` of AdaptedNd.law_of_cells, measured: `_cum_ps` increments = box mass, axis vector non-decreasing, ends at the box mass
+        mb = mass_of(box)
+        inc = float(s._cum_ps[b]) - (float(s._cum_ps[b - 1]) if b else 0.0)
+        defect[1] = max(defect[1], abs(inc - mb))
+        if ax:
+            v = axc[-1]
+            defect[1] = max(defect[1], abs(v[-1] - mb), max([0.0] + [x - y for x, y in zip([0.0] + v[:-1], v)]))
+        if not ax:
+            rec(box, 0)
+    wbox = lambda rows: "[" + ";".join(",".join(str(v) for v in r) for r in rows) + "]"
+    wrat = lambda rows: "[" + ";".join(",".join(w(v) for v in r) for r in rows) + "]"
+    return " ".join([wbox(boxes), wl([float(x) for x in s._cum_ps]), ilist(isax), wrat(axc), wbox(keys), wl(vals)]), len(keys), max(defect)
+
+
+def nd_boundary_points(ctx, d, cls, s, T, oc, sizes, single):
+    """don't-care points of the n-d adapted sampler: a uniform exactly on the upper boundary `_cum_ps[b]` of a bucket (and the
+    float just below), and the largest uniform `Uniform(high=sum(ps))` can produce.  Rule (README): no exception, a state of
+    the grid other than the origin."""
+    dim = len(oc)
+    pts = []
+    for b in range(len(s._cum_ps)):
+        for u in (float(s._cum_ps[b]), float(np.nextafter(float(s._cum_ps[b]), 0.0))):
+            sel = int(np.searchsorted(s._cum_ps, u))          # the bucket this uniform is sent to (zero-mass buckets share boundaries)
+            if sel < len(s._cum_ps):
+                pts.append((u, "axis_bucket_upper_boundary" if s._is_axis[sel] else "bucket_upper_boundary"))
+    hi = float(np.nextafter(float(s.uniform.high), 0.0))
+    if hi > float(s._cum_ps[-1]):
+        pts.append((hi, "above_last_cumulated_probability"))
+    pts = [(u, k) for u, k in pts if 0.0 < u]
+    try:
+        model = ctx.lean(f"adnd-draw {T} {wl([u for u, _ in pts])}")[1:-1].split(",")
+    except Exception:  # noqa
+        model = [None] * len(pts)
+    for (u, kind), mtok in zip(pts, model):
+        ctx.branches[f"c02.factory.boundary:{kind}"] += 1
+        mstate = None if mtok in (None, "X") else tuple(int(v) - o for v, o in zip(mtok.split(":"), oc))
+        try:
+            r = single(u)
+            ok = all(0 <= r[k] + oc[k] < sizes[k] for k in range(dim)) and any(r)
+            what = None if ok else ("origin" if not any(r) else "outside_grid")
+        except Exception as e:  # noqa
+            r, ok, what = repr(e), False, "raises"
+        if not ok:
+            ctx.fail("oracle", "c02.factory.boundary", d,
+                     {"what": "inadmissible result for a uniform on a bucket boundary (don't-care point: any grid state other than the origin would do)",
+                      "u": u, "returned": str(r), "model": str(mstate)},
+                     cls=dict(cls, point=kind, returned=what), mirrors_model=(mstate == r) if what != "raises" else (mtok == "X"))
+
+
+def nd_build_check(ctx, d, cls, s, oc, sizes):
+    """tie of M's `AdaptedNd.build` (model of `_pre_computation`) to the implementation: bucket boxes and axis flags exactly,
+    cumulated probabilities and axis vectors to 2^-40 (float cumsum against exact sums of the same box masses)"""
+    from rpylib.grid.grid import Coordinates
+    grid = s.grid
+
+    def mass_of(box):
+        a_c, b_c = zip(*box)
+        a_cc, b_cc = Coordinates(a_c), Coordinates(b_c)
+        return float(s._compute_probability(grid.middle(grid.left_point(a_cc), grid[a_cc]), grid.middle(grid[b_cc], grid.right_point(b_cc))))
+    keys, vals = [], []
+    for b, coords in enumerate(s._buckets_coordinates):
+        box = [(int(l), int(r)) for l, r in coords]
+        keys.append([v for lr in box for v in lr])
+        vals.append(mass_of(box))
+        if s._is_axis[b]:
+            k = next(i for i, (l, r) in enumerate(box) if l != r)
+            for c in range(box[k][0], box[k][1] + 1):
+                pt = list(box)
+                pt[k] = (c, c)
+                keys.append([v for lr in pt for v in lr])
+                vals.append(mass_of(pt))
+    low = 1 if len(grid.axes) * len(grid.axes[0]) < 10_001 else 0
+    wbox = lambda rows: "[" + ";".join(",".join(str(v) for v in r) for r in rows) + "]"
+    out = ctx.lean(f"adnd-build {ilist(oc)} {ilist(sizes)} {low} {wbox(keys)} {wl(vals)}").split(" ")
+    impl_boxes = wbox([[int(v) for lr in coords for v in lr] for coords in s._buckets_coordinates])
+    impl_flags = ilist([1 if x else 0 for x in s._is_axis])
+    ctx.branches["c02.adnd.build"] += 1
+    if out[0] != impl_boxes or out[1] != impl_flags:
+        ctx.fail("corr", "c02.factory.tables", d, {"name": "AdaptedNd.build vs _pre_computation (bucket boxes / axis flags)", "impl": [impl_boxes[:300], impl_flags],
+                                                   "model": [out[0][:300], out[1]]}, cls=cls)
+        return
+    mcum = rdl(out[2])
+    if any(abs(fr(float(x)) - y) > TOL for x, y in zip(s._cum_ps, mcum)):
+        ctx.fail("corr", "c02.factory.tables", d, {"name": "AdaptedNd.build vs _pre_computation (cumulated bucket probabilities)"}, cls=cls)
+    rows = out[3][1:-1].split(";")
+    for b, row in enumerate(rows):
+        if s._is_axis[b]:
+            mv = [Fraction(x) for x in row.split(",")]
+            iv = [fr(float(x)) for x in s._precomputed_cum_p_for_axes[b]]
+            if len(mv) != len(iv) or any(abs(x - y) > TOL for x, y in zip(iv, mv)):
+                ctx.fail("corr", "c02.factory.tables", d, {"name": "AdaptedNd.build vs _pre_computation (precomputed axis vector)", "bucket": b}, cls=cls)
                 return
-            dim = len(result)
-            k = kstart
-            while result[k][0] == result[k][1]:
-                k = (k + 1) % dim
-            left, right = result[k]
-            middle = (right + left) // 2
-            lres = list(result)
-            lres[k] = (left, middle)
-            a_c, b_c = zip(*lres)
-            a_cc, b_cc = Coordinates(a_c), Coordinates(b_c)
-            a = grid.middle(grid.left_point(a_cc), grid[a_cc])
-            bb = grid.middle(grid[b_cc], grid.right_point(b_cc))
-            p = fr(float(s._compute_probability(a, bb)))
-            rres = list(result)
-            rres[k] = (min(right, middle + 1), right)
-            # the `for k` loop goes on with the next axis; after the last axis the `while` restarts at axis 0
-            rec(lres, lo, (k + 1) % dim)
-            rec(rres, lo + p, (k + 1) % dim)
-        start = len(cells)
-        rec([tuple(c) for c in coords], lo_b, 0)
-        # close the open cells: each ends where the next begins, the last at the bucket's end
-        for i in range(start, len(cells)):
-            nxt = cells[i + 1][1] if i + 1 < len(cells) else cum[b]
-            cells[i] = (cells[i][0], cells[i][1], nxt)
-    return cells
+
+
+def parse_nd_cells(tok, oc):
+    """cells of M's n-d model `[i:j,lo,hi;…]` as (state increment, lo, hi)"""
+    out = []
+    inner = tok.strip()[1:-1]
+    if inner:
+        for part in inner.split(";"):
+            st, lo, hi = part.split(",")
+            out.append((tuple(int(v) - o for v, o in zip(st.split(":"), oc)), Fraction(lo), Fraction(hi)))
+    return out
 
 
 def copula_case(ctx, margins_desc, cop, gkind, gkw, mname, firsts=()):
@@ -882,12 +1016,12 @@ def copula_case(ctx, margins_desc, cop, gkind, gkw, mname, firsts=()):
     if gkind == "credit":
         mk_grid = lambda: zoo.CTMCCredit(h=gkw["h"], level_a=gkw["a"], model=mk_model(), symmetric_grid=gkw["sym"])
     else:
-        mk_grid = lambda: zoo.make_grid("fixed", None, gkw["h"], dimension=2, nb_of_points=gkw["nb"])[0]
+        mk_grid = lambda: zoo.make_grid("fixed", None, gkw["h"], dimension=len(margins_desc), nb_of_points=gkw["nb"])[0]
     method = SamplingMethod[mname]
     d = {"stream": "factory2d", "margins": margins_desc, "copula": cop, "grid": gkind, "gkw": gkw, "method": mname}
     if firsts:
         d["firsts"] = list(firsts)
-    cls = {"stream": "factory", "method": mname.lower(), "grid": gkind, "dim": 2}
+    cls = {"stream": "factory", "method": mname.lower(), "grid": gkind, "dim": len(margins_desc)}
     mk = lambda: MarkovChainLevyCopula(mk_model(), mk_grid(), method)
     try:
         g = mk_grid()
@@ -898,7 +1032,7 @@ def copula_case(ctx, margins_desc, cop, gkind, gkw, mname, firsts=()):
         oc = tuple(int(c) for c in g.origin_coordinate)
         sizes = [len(a) for a in g.axes]
         ref = MarkovChainLevyCopula(mk_model(), mk_grid(), SamplingMethod.INVERSION).sampling
-        states = [(i, j) for i in range(sizes[0]) for j in range(sizes[1]) if (i, j) != oc]
+        states = [st for st in itertools.product(*[range(k) for k in sizes]) if st != oc]
         target = {tuple(a - b for a, b in zip(st, oc)): fr(float(ref.probability_to_jump_to_state(tuple(a - b for a, b in zip(st, oc)))))
                   for st in states}                          # joint mass of the cell / lambda (C01)
         # (v) cross-instance history in 2-d: other samplers on identical grids draw before the swept one is built
@@ -914,7 +1048,7 @@ def copula_case(ctx, margins_desc, cop, gkind, gkw, mname, firsts=()):
         ctx.count("c02.factory", d, nontrivial=False, branch=f"{mname}:2d:raises")
         ctx.fail("oracle", "c02.factory.raises", d, {"raised": repr(e)}, cls=cls)
         return
-    ctx.count("c02.factory", d, branch=f"{mname}:2d:{gkind}")
+    ctx.count("c02.factory", d, branch=f"{mname}:{len(margins_desc)}d:{gkind}")
     env = None
     try:
         if mname == "INVERSION":
@@ -929,7 +1063,11 @@ def copula_case(ctx, margins_desc, cop, gkind, gkw, mname, firsts=()):
             cells = [(incs[k], a, b) for k, a, b in parse_cells(ctx.lean(f"inv-cells {ilist(adm)} {mf} {wl(prob)}"))]
         else:
             single = lambda u: canon(s.sample_with_us(np.array([u]))[0])
-            cells = adapted_nd_cells(mk().sampling)
+            T, nkeys, defect = nd_tables(s)
+            ctx.branches[f"c02.adnd.mass_table_entries:{min(nkeys // 100, 20) * 100}+"] += 1
+            ctx.branches["c02.adnd.additive_and_consistent_defect:" + ("<=2^-40" if defect <= 2.0 ** -40 else "<=2^-30" if defect <= 2.0 ** -30 else ">2^-30")] += 1
+            cells = parse_nd_cells(ctx.lean(f"adnd-cells {T}"), oc)
+            nd_build_check(ctx, d, cls, s, oc, sizes)
         total = sum((b - a for _, a, b in cells if b > a), Fraction(0))
         law, bad, excl = law_from_cells(ctx, cells, single)
         if mname == "INVERSION" and calls:
@@ -953,10 +1091,20 @@ def copula_case(ctx, margins_desc, cop, gkind, gkw, mname, firsts=()):
                                                   "forbidden": forb[:5]}, cls=cls)
     us = [u for _, lo, hi in cells for u in probe_points(lo, hi)[:1]]
     rng.shuffle(us)
-    if mname == "INVERSION":
-        batch_case(ctx, d, cls, s, single, us[:30])
-    else:
-        batch_case(ctx, d, cls, s, single, us[:30])
+    if mname != "INVERSION" and us:
+        try:
+            sub = us[:400]
+            got = [single(u) for u in sub]
+            mod = [None if t == "X" else tuple(int(v) - o for v, o in zip(t.split(":"), oc))
+                   for t in ctx.lean(f"adnd-draw {T} {wl(sub)}")[1:-1].split(",")]
+            if got != mod:
+                i = next(i for i, (a, b) in enumerate(zip(got, mod)) if a != b)
+                ctx.fail("corr", "c02.factory.draw", d, {"name": "AdaptedNd.draw vs sample_with_us on the extracted tables", "u": sub[i], "impl": str(got[i]), "model": str(mod[i])}, cls=cls)
+        except Exception as e:  # noqa
+            ctx.fail("oracle", "c02.factory.raises", d, {"raised": repr(e)}, cls=cls)
+    batch_case(ctx, d, cls, s, single, us[:30])
+    if mname != "INVERSION":
+        nd_boundary_points(ctx, d, cls, s, T, oc, sizes, single)
     history_case(ctx, d, cls, mk, cells, None, env=env, nd=True)
     if firsts:
         interleave_2d(ctx, d, cls, mname, [(mname, s)] + others, mk, cells)
@@ -1001,6 +1149,12 @@ def run(ctx):
             gkind, gkw = "credit", {"h": 0.1, "a": [-rng.choice([0.3, 0.4]), -rng.choice([0.3, 0.4])], "sym": rng.choice([True, False])}
         for mname in ("INVERSION", "BINARYSEARCHTREEADAPTED"):
             copula_case(ctx, margins, cop, gkind, gkw, mname, firsts=rng.choice([(), (mname,), ("INVERSION", "BINARYSEARCHTREEADAPTED")]))
+    # 3-d chains for the n-d adapted sampler (one small one in quick, more and larger ones in thorough)
+    for i in range(ctx.n(1, 6)):
+        margins = [(rng.choice(["hem", "merton"]), {}) for _ in range(3)]
+        gkw = {"h": rng.choice([0.1, 0.05]), "nb": 5 if i == 0 else rng.choice([5, 7, 9])}
+        copula_case(ctx, margins, rng.choice(zoo.COPULAS), "fixed", gkw, "BINARYSEARCHTREEADAPTED",
+                    firsts=rng.choice([(), ("BINARYSEARCHTREEADAPTED",)]))
 
 
 def replay(ctx, rec):
